@@ -85,7 +85,65 @@ class C14Monitor:
         return False
 
 
+def long_list_reorders(ctx, rng):
+    """Refused reorder assignments on LONG member lists (5-9 members), the offending value at every position in turn: a reorder that
+    is validated or applied element by element goes wrong half-way only when there is a half-way."""
+    n = sdn.Netlist("n")
+    libs = [n.create_library("l%d" % k) for k in range(rng.randint(5, 9))]
+    lib = libs[0]
+    defs = [lib.create_definition("d%d" % k) for k in range(rng.randint(5, 9))]
+    d = defs[0]
+    leaf = defs[1]
+    ports = [d.create_port("p%d" % k, pins=1) for k in range(rng.randint(5, 9))]
+    wide = d.create_port("wide", pins=rng.randint(5, 9))
+    cables = [d.create_cable("c%d" % k, wires=1) for k in range(rng.randint(5, 9))]
+    bus = d.create_cable("bus", wires=rng.randint(5, 9))
+    kids = [d.create_child("u%d" % k, reference=leaf) for k in range(rng.randint(5, 9))]
+    net = cables[0].wires[0]
+    lp = leaf.create_port("a", pins=1)
+    for k in kids:
+        net.connect_pin(k.pins[lp.pins[0]])
+    other = sdn.Netlist("o").create_library("ol")
+    odef = other.create_definition("od")
+    foreign = {"libraries": other, "definitions": odef, "ports": odef.create_port("fp", pins=1), "pins": odef.create_port("fq", pins=2).pins[0],
+               "cables": odef.create_cable("fc", wires=1), "wires": odef.create_cable("fd", wires=2).wires[0],
+               "children": odef.create_child("fu", reference=leaf)}
+    fpin = odef.create_child("fv", reference=leaf).pins[lp.pins[0]]
+    targets = [(n, "libraries", foreign["libraries"]), (lib, "definitions", foreign["definitions"]), (d, "ports", foreign["ports"]),
+               (wide, "pins", foreign["pins"]), (d, "cables", foreign["cables"]), (bus, "wires", foreign["wires"]),
+               (d, "children", foreign["children"]), (net, "pins", fpin)]
+    for obj, attr, alien in targets:
+        members = list(getattr(obj, attr))
+        for trial in range(4):
+            perm = list(members)
+            rng.shuffle(perm)
+            j = rng.randrange(len(perm))
+            kind = rng.choice(["replaced", "replaced", "repeated", "extra"])
+            if kind == "replaced":
+                bad = perm[:j] + [alien] + perm[j + 1:]
+            elif kind == "repeated":
+                bad = perm[:j] + [perm[(j + 1) % len(perm)]] + perm[j + 1:]
+            else:
+                bad = perm[:j] + [alien] + perm[j:]
+            before = [id(x) for x in getattr(obj, attr)]
+            ctx.count("long_list_reorders_tried")
+            try:
+                setattr(obj, attr, bad)
+            except Exception as ex:  # noqa: BLE001
+                after = [id(x) for x in getattr(obj, attr)]
+                if after != before:
+                    ctx.violation("refused-call-changed-state:%s.%s=:order" % (type(obj).__name__, attr),
+                                  "a %s assignment (%s value at position %d of %d) was refused with %s and left the list changed (%d -> %d members, "
+                                  "same order: %s)" % (attr, kind, j, len(bad), type(ex).__name__, len(before), len(after), sorted(after) == sorted(before)))
+                    return
+                continue
+            ctx.violation("non-permutation-accepted:%s.%s=" % (type(obj).__name__, attr), "a %s assignment with a %s value was accepted" % (attr, kind))
+            return
+
+
 def run_case(ctx, i, rng):
+    if i % 8 == 3:
+        long_list_reorders(ctx, rng)
     if i % 10 == 9:
         # refusals across naming policies: an orphan subtree built under one policy is offered to a parent under the other one
         from . import c10
